@@ -960,4 +960,31 @@ theorem join_splitAux {α} [DecidableEq α] (sep : α) : ∀ (s cur : List α),
 theorem join_split {α} [DecidableEq α] (sep : α) (s : List α) : join sep (split sep s) = s := by
   simpa [split] using join_splitAux sep s []
 
+/-- **C07.pick_pick** — fancy indexing composes: `f[ix][jx]` is `f[ix[jx]]` — the same characters, and
+the one raises exactly when the other does (given that `ix` is valid for `f` and `jx` for `ix`). -/
+theorem pick_pick {α} (l : List α) (ix : List Nat) (r : List α) (h : pick l ix = some r) :
+    ∀ (jx kx : List Nat), pick ix jx = some kx → pick r jx = pick l kx := by
+  intro jx
+  induction jx with
+  | nil => intro kx hk; simp [pick] at hk; subst hk; simp [pick]
+  | cons j js ih =>
+    intro kx hk
+    obtain ⟨b, bs, hb, hbs, rfl⟩ := omap_cons_eq_some _ j js kx hk
+    have hj : j < ix.length := by
+      rcases Nat.lt_or_ge j ix.length with h1 | h1
+      · exact h1
+      · rw [List.getElem?_eq_none h1] at hb; simp at hb
+    have hget := pick_getElem l ix r h j hj
+    have hb' : ix[j]! = b := by
+      rw [List.getElem?_eq_getElem hj] at hb
+      simp only [Option.some.injEq] at hb
+      simp [hj, hb]
+    have := ih bs hbs
+    unfold pick at this ⊢
+    simp only [omap, this, hget, hb']
+
+/-- non-vacuity: `"ACGT"[[3,0,2]][[1,1,0]]` = `"ACGT"[[0,0,3]]` = `"AAT"` -/
+example : pick [65, 67, 71, 84] [3, 0, 2] = some [84, 65, 71] ∧ pick [3, 0, 2] [1, 1, 0] = some [0, 0, 3]
+    ∧ pick [84, 65, 71] [1, 1, 0] = some [65, 65, 84] ∧ pick [65, 67, 71, 84] [0, 0, 3] = some [65, 65, 84] := by decide
+
 end C07
